@@ -6,7 +6,7 @@
         applied the rest                                                 (a lagging follower)
      c  of one that started from that snapshot                           (a restart, a new member)
    Accepted iff all three describe the same catalogue (Catalogue!Agree, SnapOK): the same
-   datasets, the same partitions in the same order, the same replica set per partition,
+   datasets with the same dimension, metric and replication factor, the same partitions in the same order, the same replica set per partition,
    and no node listed twice. *)
 EXTENDS Integers, Sequences, FiniteSets, TLC, Json
 CONSTANT TraceFile
@@ -19,6 +19,7 @@ PartIds(d) == [i \in 1..Len(d.parts) |-> d.parts[i].id]
 Same(x, y) ==
   /\ Ids(x) = Ids(y)
   /\ \A i \in 1..Len(x) : /\ PartIds(x[i]) = PartIds(y[i])
+                          /\ <<x[i].dim, x[i].space, x[i].repl>> = <<y[i].dim, y[i].space, y[i].repl>>
                           /\ \A j \in 1..Len(x[i].parts) : SetOf(x[i].parts[j].nodes) = SetOf(y[i].parts[j].nodes)
 NoDup(x) == \A i \in 1..Len(x) : \A j \in 1..Len(x[i].parts) :
                Cardinality(SetOf(x[i].parts[j].nodes)) = Len(x[i].parts[j].nodes)
